@@ -252,7 +252,7 @@ func RunRepoTests(c *core.Ctx, pkgs ...string) ([]Event, error) {
 	}
 	args := append([]string{"test", "-tags", "verif", "-vet=off", "-count=1"}, pkgs...)
 	cmd := exec.Command("go", args...)
-	cmd.Dir = "/repo"
+	cmd.Dir = core.RepoDir()
 	cmd.Env = append(os.Environ(), "CEDAR_VERIF_TRACE_DIR="+dir, "GOFLAGS=-mod=mod", "GOPROXY=off")
 	out, err := cmd.CombinedOutput()
 	if err != nil {
